@@ -200,6 +200,14 @@ GRIDS = {  # per variable kind: list of (min, max, step) as decimal strings; ind
     "angle": [("1", "2.5", "0.25"), ("1.1", "2.3", "0.2")],
     "dihedral": [("-2.5", "2.5", "0.625"), ("-2.4", "2.4", "0.6")],
 }
+# grids of the "different grid per interaction" mixes (nb3d, bond2, angle2): per interaction its own (min,max,step)
+GRIDS_D = {
+    "A-A": [("0.3125", "0.4375", "0.03125"), ("0.3", "0.42", "0.04")],      # SHORT cut-off
+    "A-B": [("0.34375", "0.5625", "0.03125"), ("0.33", "0.57", "0.04")],    # LONG cut-off
+    "B-B": [("0.3125", "0.5", "0.0625"), ("0.32", "0.5", "0.06")],          # medium cut-off, coarser step
+    "bond1": GRIDS["bond"], "bond2": [("0.3125", "0.5", "0.0625"), ("0.3", "0.54", "0.06")],
+    "ang1": GRIDS["angle"], "ang2": [("1.25", "2.75", "0.5"), ("1.2", "2.6", "0.35")],
+}
 OUTDIV = [1, 2]  # out_step = step / OUTDIV[grid variant]
 PHI = [0.23, 0.41, 0.67, 0.89]
 NFRAMES = 4
@@ -431,6 +439,83 @@ def build(mix, gridv, cfg):
                 cl.append([R(x) for x in (a, b, c, s1, s2, s3)])
             clusters_per_frame.append(cl)
         order = [(t, k) for t in range(nm) for k in range(3)] + [(t, k) for t in range(nm) for k in (3, 4, 5)]
+    elif mix in ("nb3d-LS", "nb3d-SL"):
+        # three pair interactions with DIFFERENT (min,max,step); LS: the long cut-off (A-B) comes first in the options
+        # file, SL: the short one (A-A) first.  Besides the in-range samples there are A-A and B-B pairs BETWEEN their own
+        # cut-off and the long A-B cut-off: a cut-off (or grid) carried over from another interaction changes the pair set.
+        nin, ngap = 10, 4
+        nt = nin + ngap
+        gd = lambda nme: GRIDS_D[nme][gridv]
+        S.molecules = [("MA", [("A1", "A")], 3 * nt), ("MB", [("B1", "B")], 3 * nt)]
+        names = ("A-B", "B-B", "A-A") if mix.endswith("LS") else ("A-A", "B-B", "A-B")
+        S.nb = [(nme, nme[0], nme[2]) for nme in names]
+        for nme in names:
+            S.grid[nme], S.kind[nme] = gd(nme), "nb"
+        (alo, ahi, _), (mlo, mhi, _), (blo, bhi, _) = fl(gd("A-A")), fl(gd("A-B")), fl(gd("B-B"))
+        S.gap_pairs_expected = {"A-A": (ahi, mhi, ngap), "B-B": (bhi, mhi, ngap)}
+        for f in range(NFRAMES):
+            vaa = lattice_values(alo, ahi, nin, f, cfg) + lattice_values(ahi + 0.012, mhi - 0.012, ngap, f, cfg + 1)
+            vbb = lattice_values(blo, bhi, nin, f, cfg + 1) + lattice_values(bhi + 0.012, mhi - 0.012, ngap, f, cfg + 2)
+            vab = lattice_values(mlo, mhi, 4 * nt, f, cfg + 2)
+            paa, pbb, pab = perm(nt, f, 5), perm(nt, f, 3), perm(4 * nt, f, 11)
+            cl = []
+            for t in range(nt):      # A A B
+                R = rotation(t + 3 * f + 7 * cfg)
+                cl.append([R(x) for x in triangle(vaa[paa[t]], vab[pab[2 * t]], vab[pab[2 * t + 1]])])
+            for t in range(nt):      # A B B
+                R = rotation(t + 3 * f + 7 * cfg + 4)
+                cl.append([R(x) for x in triangle(vab[pab[2 * nt + 2 * t]], vab[pab[2 * nt + 2 * t + 1]], vbb[pbb[t]])])
+            clusters_per_frame.append(cl)
+        order = []
+        for t in range(nt):
+            order += [(t, 0), (t, 1)]
+        for t in range(nt):
+            order += [(nt + t, 0)]
+        for t in range(nt):
+            order += [(t, 2)]
+        for t in range(nt):
+            order += [(nt + t, 1), (nt + t, 2)]
+    elif mix in ("bond2-LS", "bond2-SL"):
+        # two bond groups with different grids in one molecule a-b-c (bond2 has the larger range)
+        nm = 14
+        gd = lambda nme: GRIDS_D[nme][gridv]
+        S.molecules = [("TRI", [("a", "A"), ("b", "A"), ("c", "A")], nm)]
+        groups = [("bond", "bond1", ["TRI:a TRI:b"]), ("bond", "bond2", ["TRI:b TRI:c"])]
+        S.bonded = groups[::-1] if mix.endswith("LS") else groups
+        for nme in ("bond1", "bond2"):
+            S.grid[nme], S.kind[nme] = gd(nme), "bond"
+        (lo1, hi1, _), (lo2, hi2, _) = fl(gd("bond1")), fl(gd("bond2"))
+        for f in range(NFRAMES):
+            v1, v2 = lattice_values(lo1, hi1, nm, f, cfg), lattice_values(lo2, hi2, nm, f, cfg + 1)
+            p1, p2 = perm(nm, f, 5), perm(nm, f, 3)
+            cl = []
+            for t in range(nm):
+                th = 1.2 + 0.17 * ((2 * t + f + cfg) % 8)
+                cl.append([rotation(t + 4 * f + 5 * cfg)(x) for x in trimer(v1[p1[t]], v2[p2[t]], th)])
+            clusters_per_frame.append(cl)
+        order = None
+    elif mix in ("angle2-LS", "angle2-SL"):
+        # two angle groups with different grids in one molecule a-b-c-d (ang2 has the larger upper end)
+        nm = 14
+        gd = lambda nme: GRIDS_D[nme][gridv]
+        S.molecules = [("TET", [("a", "A"), ("b", "A"), ("c", "A"), ("d", "A")], nm)]
+        groups = [("angle", "ang1", ["TET:a TET:b TET:c"]), ("angle", "ang2", ["TET:b TET:c TET:d"])]
+        S.bonded = groups[::-1] if mix.endswith("LS") else groups
+        for nme in ("ang1", "ang2"):
+            S.grid[nme], S.kind[nme] = gd(nme), "angle"
+        (lo1, hi1, _), (lo2, hi2, _) = fl(gd("ang1")), fl(gd("ang2"))
+        for f in range(NFRAMES):
+            v1, v2 = lattice_values(lo1, hi1, nm, f, cfg), lattice_values(lo2, hi2, nm, f, cfg + 1)
+            p1, p2 = perm(nm, f, 3), perm(nm, f, 5)
+            cl = []
+            for t in range(nm):
+                l1 = 0.27 + 0.011 * ((3 * t + f) % 9)
+                l2 = 0.33 + 0.007 * ((2 * t + f) % 5)
+                l3 = 0.41 - 0.013 * ((5 * t + 2 * f + cfg) % 8)
+                ph = 0.6 + 0.25 * ((t + f + cfg) % 9)
+                cl.append([rotation(t + 4 * f + 5 * cfg)(x) for x in tetramer(l1, l2, l3, v1[p1[t]], v2[p2[t]], ph)])
+            clusters_per_frame.append(cl)
+        order = None
     else:
         raise ValueError(mix)
     S.clusters_per_frame = clusters_per_frame
@@ -516,6 +601,8 @@ def forces(S, funcs, angle_as_coded=False):
         n = len(pos)
         F = [[0.0, 0.0, 0.0] for _ in range(n)]
         smp = dict((name, []) for name in S.grid)
+        gap = {}
+        longest = max([float(S.grid[nme][1]) for (nme, _, _) in S.nb] + [0.0])
 
         def addf(i, g, s):
             F[i][0] += g[0] * s; F[i][1] += g[1] * s; F[i][2] += g[2] * s
@@ -556,6 +643,8 @@ def forces(S, funcs, angle_as_coded=False):
                     r = norm(d)
                     if r >= gmax:
                         assert r > gmax + 2e-5, "pair distance %.7f on the cutoff" % r
+                        if r < longest - 1e-3 and not ((i, j) in S.excl and S.mol[i] == S.mol[j]):
+                            gap[name] = gap.get(name, 0) + 1
                         continue
                     if (i, j) in S.excl and S.mol[i] == S.mol[j]:
                         continue
@@ -565,6 +654,8 @@ def forces(S, funcs, angle_as_coded=False):
                     u = mul(d, 1.0 / r)
                     addf(i, u, -fv)   # d r / d r_i = -u
                     addf(j, u, fv)
+        for nme, (lo_, hi_, cnt_) in getattr(S, "gap_pairs_expected", {}).items():
+            assert gap.get(nme, 0) >= cnt_, "only %d %s pairs between its cut-off and the longest cut-off" % (gap.get(nme, 0), nme)
         out.append(F)
         samples.append(smp)
     return out, samples
@@ -751,6 +842,8 @@ def run_case(c, exe, verbose=False):
 
 
 MIXES = ["nb1", "nb2", "bond", "angle", "dihedral", "bond+angle+nb"]
+# interactions of the same kind with DIFFERENT grids / cut-offs, both orders in the options file
+MIXES_D = ["nb3d-LS", "nb3d-SL", "bond2-LS", "bond2-SL", "angle2-LS", "angle2-SL"]
 
 
 def case_string(c):
@@ -767,15 +860,16 @@ def enumerate_cases(tier):
     thorough = tier == "thorough"
     fpbs = [1, 2, 4] if not thorough else [1, 2, 3, 4]
     cfgs = [0] if not thorough else [0, 1, 2]
-    for mix in MIXES:
+    for mix in MIXES + MIXES_D:
         has_nb = "nb" in mix
+        reduced = (mix in MIXES_D) and not thorough      # quick: spline functions, triclinic cell, block sizes 1 and 4 only
         for cfg in cfgs:
-            for func in ("line", "spline"):
+            for func in (("spline",) if reduced else ("line", "spline")):
                 for grid in (0, 1):
-                    for box in ("ortho", "tri"):
+                    for box in (("tri",) if reduced else ("ortho", "tri")):
                         for nbs in (("simple", "grid") if has_nb else ("simple",)):
                             for cls in (1, 0):
-                                for fpb in fpbs:
+                                for fpb in ((1, 4) if reduced else fpbs):
                                     yield dict(mix=mix, cls=cls, fpb=fpb, box=box, grid=grid, func=func, cfg=cfg, nbs=nbs)
 
 
@@ -796,7 +890,12 @@ def main():
               "lines, natural cubic splines; a different one per interaction} x fit grid {dyadic with out_step=step, decimal with "
               "out_step=step/2} x cell {orthorhombic, triclinic} x nbsearch {simple, grid} x constrainedLS {true,false} x frames_per_block " +
               ("{1,2,3,4} x 3 configuration lattices" if a.tier == "thorough" else "{1,2,4}") +
-              " over 4-frame lattice configurations in which every frame samples every spline interval >= 2 times (verified). Oracle: "
+              "; PLUS interactions of one kind with DIFFERENT (min,max,step) per interaction, each in both orders of the options file "
+              "(larger range first / smaller first): three pair interactions A-A (short cut-off), A-B (long), B-B (medium, coarser step) "
+              "with A-A and B-B pairs lying between their own and the long cut-off (verified per frame, none within 2e-5 nm of a cut-off), "
+              "two bond groups, two angle groups" +
+              (" (full product as above)" if a.tier == "thorough" else " (spline functions, triclinic cell, frames_per_block {1,4})") +
+              "; all over 4-frame lattice configurations in which every frame samples every spline interval >= 2 times (verified). Oracle: "
               "every <name>.force table equals the generating function on the whole output grid within 1e-6 (constrained) / 1e-5 (plain) "
               "of max|F|. distinct_nontrivial = distinct (mix, LS variant, function family, tables written)")
     R.assumptions = ["fmatch: reference forces are computed in IEEE double from positions rounded to 1e-6 Angstrom exactly as the reader "
